@@ -34,7 +34,7 @@ func (c03) Batches(tier string, seed uint64) []core.Batch {
 	b = append(b, spread("exh", 8, 0)...)
 	b = append(b, spread("rtrand", 8, tierN(tier, 12000, 60000))...)
 	b = append(b, core.Batch{Name: "corpus"}) // versions of this machine's dpkg database
-	return b
+	return append(b, conc(tierN(tier, 300, 2000), "grammar", "rtrand")...)
 }
 
 func (c03) Mandatory(tier string) []string {
@@ -47,6 +47,9 @@ func (c03) Mandatory(tier string) []string {
 var wsWrap = []string{"", " ", "\t", "\n", " \t\n", "  ", "\r\n"}
 
 func (p c03) RunBatch(t *core.T, b core.Batch) {
+	if concDispatch(p, t, b) {
+		return
+	}
 	r := t.Rand(b.Name, fmt.Sprint(b.Arg))
 	switch b.Name {
 	case "corpus":
